@@ -580,7 +580,7 @@ func mutate(t *rapid.T, text string) (string, string) {
 		}
 		return i + 1
 	}
-	switch rapid.IntRange(0, 15).Draw(t, "mutkind") {
+	switch rapid.IntRange(0, 20).Draw(t, "mutkind") {
 	case 0:
 		i := mid()
 		return text[:i] + " \"abc\n " + text[i:], "tok:unterminated-string"
@@ -632,6 +632,24 @@ func mutate(t *rapid.T, text string) (string, string) {
 		return text[:i] + "99999999999999999999" + text[i:], "parse:huge-int"
 	case 14:
 		return text + ";", "parse:extra-semicolon"
+	case 16, 17, 18, 19, 20:
+		// a forbidden byte where the tokenizer only skips: inside a line comment (short, and longer than the read
+		// buffer), inside a block comment, right before the end of the line
+		bad := []string{"\x00", "\xff", "\xc3", "\xed\xa0\x80"}[rapid.IntRange(0, 3).Draw(t, "badbyte")]
+		name := []string{"nul", "invalid-utf8", "truncated-rune", "surrogate"}[map[string]int{"\x00": 0, "\xff": 1, "\xc3": 2, "\xed\xa0\x80": 3}[bad]]
+		i := mid()
+		switch rapid.IntRange(0, 4).Draw(t, "badwhere") {
+		case 0:
+			return text[:i] + " // c" + bad + "c\n" + text[i:], "tok:" + name + "-in-line-comment"
+		case 1:
+			return text[:i] + " // " + strings.Repeat("c", rapid.IntRange(1000, 1100).Draw(t, "padlen")) + bad + "c\n" + text[i:], "tok:" + name + "-in-long-line-comment"
+		case 2:
+			return text[:i] + " /* c" + bad + "c */ " + text[i:], "tok:" + name + "-in-block-comment"
+		case 3:
+			return text[:i] + " //" + bad + "\n" + text[i:], "tok:" + name + "-ending-line-comment"
+		default:
+			return "// " + bad + "\n" + text, "tok:" + name + "-in-leading-comment"
+		}
 	}
 	return text + " when", "parse:trailing-when"
 }
